@@ -291,6 +291,16 @@ def panic_groups(msg, run_events):
 def finding_key(pid, fl):
     """Canonical key of a recognised, recorded defect (KNOWN_FINDINGS.jsonl); None for anything else."""
     ev = fl["rec"]
+    if ev.get("ev") == "panic" and "some channel balance has been overdrawn" in (ev.get("msg") or ""):
+        # recorded only for the way it is known to arise: the funder proposed a feerate more than twice the one in
+        # force (beyond what the fee spike buffer absorbs) while the peer's HTLCs were crossing it
+        prior = fl["run_events"][:fl["pos_in_run"] - 1]
+        rates = [c["feerate"] for e in prior if e["ev"] == "open" for c in e["chans"]]
+        for e in prior:
+            if e["ev"] == "msg" and e.get("kind") == "update_fee":
+                if rates and e["feerate"] > 2 * min(rates):
+                    return "debug_assert_balance_overdrawn_after_fee_jump_beyond_spike_buffer"
+                rates.append(e["feerate"])
     if pid == "C09" and ev.get("ev") == "msg" and ev.get("kind") == "channel_ready":
         prior = fl["run_events"][:fl["pos_in_run"] - 1]
         node, chan = ev["from"], ev["chan"]
